@@ -53,7 +53,10 @@ SweepCases == { [Base EXCEPT !.country = LongBad(k), !.grp = "cli-sweep"] : k \i
               \cup { [Base EXCEPT !.sans = <<LongBad(k)>>, !.grp = "cli-sweep"] : k \in 0..140 }
               \cup { [Base EXCEPT !.cn = LongBad(k), !.org = LongBad(k + 1), !.grp = "cli-sweep"] : k \in {0, 31, 47, 48, 63, 64, 127, 128, 255, 256, 1000} }
               \cup { [Base EXCEPT !.country = LongOk(k), !.grp = "cli-sweep"] : k \in {1, 2, 3, 64, 128, 300} }
-AllCases == Cases \cup SweepCases
+(* the same text given as a subject alternative name (any IA5 text will do there) and as the country (PrintableString only) *)
+SameTextCases == { [Base EXCEPT !.sans = s, !.country = "odd-ia5", !.grp = "cli-same-text"] : s \in {<<"odd-ia5">>, <<"dns", "odd-ia5">>, <<"odd-ia5", "dns">>} }
+                 \cup { [Base EXCEPT !.sans = <<"odd-ia5">>, !.grp = "cli-same-text"] }
+AllCases == Cases \cup SweepCases \cup SameTextCases
 Emit == IF TLCGet("stats").generated >= 0 /\ "CASES_OUT" \in DOMAIN IOEnv
         THEN ndJsonSerialize(IOEnv.CASES_OUT, SetToSeq(AllCases)) /\ PrintT(<<"CASES", Cardinality(AllCases)>>)
         ELSE TRUE
